@@ -57,6 +57,9 @@ type isoWorld struct {
 	straddle bool
 	waiting  int
 	waitFrom int
+	// beginPark, when set, is called once from the store's yield point inside
+	// Begin (the reader's own yield function)
+	beginPark func()
 }
 
 // expected returns the key -> value map of version v.
@@ -251,6 +254,20 @@ func runIsolation(r *simkit.Run) {
 	}
 	w.nVers = simkit.Range(c, 2, 8, "iso-versions")
 	nReaders := simkit.Range(c, 1, 3, "iso-readers")
+	ffldb.VerifYield = func(site string) {
+		if f := w.beginPark; f != nil && site == "snapshot.afterLdbSnapshot" {
+			w.beginPark = nil
+			if !ffldb.VerifCacheLockFree(db) {
+				// the store holds its cache lock across the two snapshot
+				// steps: nothing can run in between, and parking here would
+				// only block the writer on a mutex
+				r.Probe("begin_park_skipped_lock_held")
+				return
+			}
+			f()
+		}
+	}
+	defer func() { ffldb.VerifYield = nil }()
 	w.straddle = c.Bool(400, "iso-straddle")
 	if w.straddle {
 		r.Sig("iso-straddle")
@@ -395,8 +412,25 @@ func runIsolation(r *simkit.Run) {
 				}
 				call := r.Event("r-begin", "reader %d snapshot %d", ri, si)
 				atBegin := -1
+				atCall := w.commitV
+				parkInBegin := w.straddle && c.Bool(500, "iso-park-in-begin")
+				if parkInBegin {
+					// park INSIDE Begin, between the store's two snapshot
+					// steps, until the writer has committed (and perhaps
+					// flushed): the snapshot may be the version before or
+					// after that commit, nothing older and no mixture
+					w.beginPark = yield
+					w.waiting++
+					w.waitFrom = w.commitV
+					r.Probe("reader_parked_inside_begin")
+				}
 				body := func(tx database.Tx) error {
-					atBegin = w.commitV // Begin returned: the snapshot is this version
+					if parkInBegin {
+						parkInBegin = false
+						w.waiting--
+						w.beginPark = nil
+					}
+					atBegin = w.commitV // Begin returned: the snapshot is this version (or, parked, any since the call)
 					if w.straddle {
 						w.waiting++
 						w.waitFrom = w.commitV
@@ -415,7 +449,7 @@ func runIsolation(r *simkit.Run) {
 							via = "blocks"
 							v = -2
 							for cand := 0; cand <= w.nVers; cand++ {
-								if fmt.Sprint(w.blocksAt(cand)) == fmt.Sprint(have) && cand == atBegin {
+								if fmt.Sprint(w.blocksAt(cand)) == fmt.Sprint(have) && cand >= atCall && cand <= atBegin {
 									v = cand
 								}
 							}
@@ -433,9 +467,9 @@ func runIsolation(r *simkit.Run) {
 							}
 						}
 						r.Event("r-read", "reader %d snap %d via %s -> version %d (store at %d)", ri, si, via, v, w.commitV)
-						if v != atBegin {
-							r.Violate(prop, "isolation", "", "reader %d snapshot taken at version %d reads version %d via %s (store now at %d)",
-								ri, atBegin, v, via, w.commitV)
+						if v < atCall || v > atBegin {
+							r.Violate(prop, "isolation", "", "reader %d snapshot taken between version %d and %d reads version %d via %s (store now at %d)",
+								ri, atCall, atBegin, v, via, w.commitV)
 						}
 						if seen >= 0 && v != seen {
 							r.Violate(prop, "isolation", "", "reader %d snapshot changed from version %d to %d", ri, seen, v)
